@@ -128,12 +128,30 @@ let run_pool line =
   with Exit -> ());
   Buffer.contents buf
 
+(* ---------- lemon driver: input = space separated terminal codes; output = normalised trace *)
+let run_lemon line =
+  let toks = List.map (fun t -> z_of_int (int_of_string t)) (split_on ' ' line) in
+  let nstate = int_of_z parser_tables.yYNSTATE in
+  let st s = let s = int_of_z s in if s < nstate then string_of_int s else "-" in
+  match parse_document parser_tables toks with
+  | Err e -> "ERR " ^ err_name e
+  | Ok (stk, ev) ->
+    String.concat " " (List.map (function
+      | EShift (m, s) -> Printf.sprintf "S:%d:%s" (int_of_z m) (st s)
+      | EReduce (r, u) -> Printf.sprintf "R:%d:%d" (int_of_z r) (int_of_z u)
+      | EGoto s -> "G:" ^ st s
+      | EAccept -> "A"
+      | ESyntaxError m -> Printf.sprintf "E:%d" (int_of_z m)
+      | EFail -> "F"
+      | EOverflow -> "O") ev)
+
 let () =
   let model = Sys.argv.(1) in
   let f = match model with
     | "dstring" -> run_dstring false
     | "dstring-spec" -> run_dstring true
     | "pool" -> run_pool
+    | "lemon" -> run_lemon
     | _ -> failwith "unknown model" in
   try while true do
     let line = input_line stdin in
